@@ -68,7 +68,7 @@ Step ==
        [] e.ev = "tellret" ->
             /\ accepted' = IF e.g = 1 THEN accepted \cup {e.id} ELSE accepted
             /\ UNCHANGED <<inH, owners, handled, started, disturbed, inPS, psCount, psStarted, preStarted>>
-       [] e.ev \in {"restartcall", "stopcall"} ->
+       [] e.ev \in {"restartcall", "stopcall", "pillcall"} ->
             /\ disturbed' = TRUE
             /\ UNCHANGED <<inH, owners, accepted, handled, started, inPS, psCount, psStarted, preStarted>>
        [] e.ev = "psenter" ->
